@@ -16,7 +16,8 @@
 (*   end     the callee returns (external: the callee is harness code)     *)
 (*   ret     the caller gets its reply                                     *)
 (* plus run, cancel(c), stopi / close(l) / stopr (Stop closes the lanes    *)
-(* one by one) and exit(l) (the lane goroutine terminates).                *)
+(* one by one, in any order; what is still open when it returns is closed  *)
+(* at the return) and exit(l) (the lane goroutine terminates).             *)
 (*                                                                         *)
 (* What the property leaves open is left open here:                        *)
 (*   - the hash -> lane map is any function into 0..nl-1 (variable `slot`; *)
